@@ -10,6 +10,8 @@ import sys, os, ast
 sys.path.insert(0, os.path.dirname(os.path.abspath(__file__)))
 from common import *
 
+OUTPUTS = ['RenderFilter.v']
+
 CATS = {'sources': 'Sources', 'outputs': 'Outputs', 'attachments': 'Attachments', 'metadata': 'Metadata', 'id': 'Id', 'details': 'Details'}
 
 def src_tree():
